@@ -348,6 +348,17 @@ def check_default_alignment(idx: ProgramIndex, rep: Report, rule: str = "C07.P7"
                        and x.func.value.id == L and not any(y is x for y in ast.walk(loop))]
             if counts == {1} and not outside:
                 aligned.add(L)
+    # ... or bound to a comprehension over every element of S
+    for st in walk_body(fn):
+        if isinstance(st, ast.Assign) and len(st.targets) == 1 and isinstance(st.targets[0], ast.Name):
+            v = st.value
+            v = v.args[0] if (isinstance(v, ast.Call) and isinstance(v.func, ast.Name) and v.func.id in ("tuple", "list") and len(v.args) == 1) else v
+            if isinstance(v, (ast.ListComp, ast.GeneratorExp)) and len(v.generators) == 1 and not v.generators[0].ifs \
+                    and isinstance(v.generators[0].iter, ast.Name) and v.generators[0].iter.id == S:
+                others = [x for x in walk_body(fn) if isinstance(x, ast.Assign) and x is not st and any(
+                    isinstance(t, ast.Name) and t.id == st.targets[0].id for t in x.targets)]
+                if not others:
+                    aligned.add(st.targets[0].id)
     n = 0
     for r in [r for r in walk_body(fn) if isinstance(r, ast.Return) and r.value is not None]:
         used = {x.id for x in ast.walk(r.value) if isinstance(x, ast.Name)}
